@@ -9,8 +9,8 @@ Driver for the Value / GroupBy model (C12, C18).
 for every step, `<ret>#<root0>#<root1>#<root2>#<root3>`, steps joined by `|`; a root is
 `<deep dump>@<getter summary>` (same format as harness/value_harness.cpp).
 `valspec <op> ; ... ; grp D S key`  runs the sequence, then evaluates the *specification* `groupBySpec`
-on the source of the final `grp` and prints the expected group view (or `none`), and the view of the
-model's patched and current results.
+on the source of the final `grp` and prints the expected group view (or `none`) and the view of the
+model's result.
 
 Text <-> number conversions are instantiated only on the domain the check uses: `fmtReal` is a table of
 eight reals whose `%.15g` text is unambiguous, `strToNum` parses plain decimal integers and answers
@@ -207,8 +207,7 @@ def parseOp (toks : List String) : Option Op :=
   | ["rmi", l, i, _] => do some (Op.removeIdx (← parseLoc l) (← i.toNat?))
   | ["rst", l] => do some (Op.reset (← parseLoc l))
   | ["cmp", l] => do some (Op.compress (← parseLoc l))
-  | ["grp", d, s, k] => do some (Op.groupBy (← d.toNat?) (← parseLoc s) (← parseUnits k) false)
-  | ["grpfix", d, s, k] => do some (Op.groupBy (← d.toNat?) (← parseLoc s) (← parseUnits k) true)
+  | ["grp", d, s, k] => do some (Op.groupBy (← d.toNat?) (← parseLoc s) (← parseUnits k))
   | _ => none
 
 def splitOps (args : List String) : List (List String) :=
@@ -245,14 +244,12 @@ def specOf (env : Env) (src : Doc) (key : Key) : String :=
 
 def runSpec (ops : List Op) : String :=
   match ops.reverse with
-  | Op.groupBy dest s k _ :: before =>
+  | Op.groupBy dest s k :: before =>
     let env := runFinal fmtReal before.reverse initEnv
     match getAt (envGet env s.root) s.path with
     | some x =>
-      let cur := groupByA fmtReal env false x k (envGet env dest)
-      let fix := groupByA fmtReal env true x k (envGet env dest)
-      "spec=" ++ specOf env x k ++ " fixed=" ++ showBool fix.1 ++ "/" ++ viewStr env (groupView fix.2) ++
-        " current=" ++ showBool cur.1 ++ "/" ++ viewStr env (groupView cur.2)
+      let m := groupByA fmtReal env x k (envGet env dest)
+      "spec=" ++ specOf env x k ++ " model=" ++ showBool m.1 ++ "/" ++ viewStr env (groupView m.2)
     | none => "no-source"
   | _ => "bad-op"
 
